@@ -234,6 +234,7 @@ func mixedFaultBatches(r *mon.Run, c Case) {
 		all := true
 		var wbits []bool
 		var names []string
+		prefixBad := ""
 		pan, pmsg := mon.Try(func() {
 			for _, i := range idx {
 				k := kinds[i]
@@ -245,8 +246,25 @@ func mixedFaultBatches(r *mon.Run, c Case) {
 				all = all && want[i]
 				wbits = append(wbits, want[i])
 				names = append(names, k.name)
+				// one order in two is verified incrementally: every prefix of the batch is verified (both ways) before
+				// the next entry is added - a verifier that remembers an earlier verdict must forget it on every kind of add
+				if (code/step)%2 == 0 {
+					pa, pb := bv.Verify(nil)
+					po := bv.VerifyBatchOnly(nil)
+					bad := pa != all || po != all || len(pb) != len(wbits)
+					for j := 0; !bad && j < len(pb); j++ {
+						bad = pb[j] != wbits[j]
+					}
+					if bad && prefixBad == "" {
+						prefixBad = fmt.Sprintf("after %d adds %v: Verify=%v %v, VerifyBatchOnly=%v; single verification says %v", len(wbits), names, pa, pb, po, wbits)
+					}
+				}
 			}
 		})
+		if prefixBad != "" {
+			r.Violate("batch/mixed-faults/prefix-verified-between-adds", prefixBad+fmt.Sprintf(" (mode=%d)", mode), c)
+			prefixBad = ""
+		}
 		var gotAll, gotOnly bool
 		var bits []bool
 		if !pan {
